@@ -47,9 +47,17 @@ def extract(facts):
     fn = facts.fn(FCS)
     body = fn["body"]
     names = locals_by_name(body)
-    for need in ("pos", "start_pos", "end_pos", "state"):
-        if need not in names:
-            raise KeyError("anchor-missing: local `%s` of %s" % (need, FCS))
+    if any(need not in names for need in ("pos", "start_pos", "end_pos", "state")):
+        # renamed locals: recognise them by type (declaration order separates the two markers: begin marker first)
+        user = sorted(set(d["place"]["l"] for d in body["debug"] if "l" in d["place"] and not d["place"]["p"]))
+        ty = lambda l: body["locals"][l]["ty"]
+        counters = [l for l in user if ty(l) == "usize" and l > body["arg_count"]]
+        marks = [l for l in user if ty(l) == "std::option::Option<usize>"]
+        states = [l for l in user if ty(l).startswith(FCS + "::")]
+        if not counters or len(marks) < 2 or not states:
+            raise KeyError("anchor-missing: the scanner locals (a usize position, two Option<usize> markers, a state) of %s" % FCS)
+        names = dict(names)
+        names.update({"pos": counters[0], "start_pos": marks[0], "end_pos": marks[1], "state": states[0]})
     # all four names appear twice (shadowed in the final match): take the first declared (lowest index)
     st_adt = body["locals"][names["state"]]["ty"]
     variants = facts.variants(st_adt)
@@ -199,9 +207,10 @@ def reference(text):
     return None
 
 
+# the family stays inside the property's domain: doc words contain no `@`, `*`, `/`; ordinary comments between contain no `/`, `*`
 PRE = ["", "x;", "x {\n", "/** p */ x;\n", "/* o */", "// l\n x;\n", "/** p */\n", "x; /** q */ y;"]
-DOCS = [None, "/** d */", "/** é d\n * e */", "/**d*/", "/** a\r\n * @b c\r\n */"]
-BETWEEN = [" ", "\n", "\r\n", "\t", "/* o */", "/*o*/", "// l\n", "// l;\r\n", "//\n", "/* é\n o */"]
+DOCS = [None, "/** d */", "/** é d\n * e */", "/**d*/", "/** a\r\n * @b c\r\n */", "/***/", "/** */", "/**\n*/", "/**\n * é\n */"]
+BETWEEN = [" ", "\n", "\r\n", "\t", "/* o */", "/*o*/", "// l\n", "// l;\r\n", "//\n", "/* é\n o */", "/**/", "\n\n"]
 
 
 def family(depth):
@@ -211,3 +220,95 @@ def family(depth):
             for k in range(depth + 1):
                 for seq in itertools.product(BETWEEN, repeat=k):
                     yield pre + (doc or "") + "".join(seq)
+
+
+def margin_of(tab):
+    """the constant subtracted from the position when the begin marker is recognised, read from the returned slice expression;
+    also checks the slice is input[len - (pos - margin) .. len - end]"""
+    import re
+    ms = set()
+    for (s_, c), t in tab["trans"].items():
+        if t["stop"] and t["start"]:
+            m = re.match(r"^\(index, input, \(adt, std::ops::Range, None, \(\(0, \(sub, [\w:<> ]*len\(input\), \(sub, \(add, POS, [^()]*len_utf8\(\(const, int, \d+\)\)\), \(const, int, (\d+)\)\)\)\), \(1, \(sub, [\w:<> ]*len\(input\), END0\)\)\)\)\)$", t.get("ret", ""))
+            if not m:
+                raise Unsupported("the returned slice is not input[len - (pos - k) .. len - end]: %s" % t.get("ret"))
+            ms.add(int(m.group(1)))
+    if len(ms) != 1:
+        raise Unsupported("begin-marker margins %r" % sorted(ms))
+    return ms.pop()
+
+
+def slice_safety(tab):
+    """All-inputs argument for the three subtractions and the slice of find_content_string, on the extracted table
+    (states x classes; every transition consumes >= 1 byte, exactly 1 for an ASCII class):
+      S1  from the initial state a start-marking stop is at least 3 transitions away            (`pos - 3` cannot underflow)
+      S2  after the LAST end-marking transition a start-marking stop is at least 3 transitions away
+          (start = pos_stop - 3 >= pos_end, i.e. the slice has start <= end)
+      S3  the three characters consumed last before a start-marking stop belong to single-byte classes
+          (pos_stop - 3 is a character boundary; pos_end is one because pos only accumulates whole characters)
+    returns a list of problems (empty = safe)"""
+    trans = tab["trans"]
+    problems = []
+    K = margin_of(tab)
+    succ = {}
+    for (s, c), t in trans.items():
+        succ.setdefault(s, []).append((c, t))
+
+    def min_dist_to_start(src_states, avoid_end):
+        """fewest transitions from one of src_states up to and including a start-marking stop (None: unreachable)"""
+        from collections import deque
+        dist = {}
+        dq = deque()
+        for s in src_states:
+            dist[s] = 0
+            dq.append(s)
+        best = None
+        while dq:
+            s = dq.popleft()
+            for c, t in succ.get(s, []):
+                if avoid_end and t["end"]:
+                    continue   # a later end mark restarts the count
+                if t["stop"]:
+                    if t["start"]:
+                        d = dist[s] + 1
+                        best = d if best is None or d < best else best
+                    continue
+                n = t["next"]
+                if n not in dist:
+                    dist[n] = dist[s] + 1
+                    dq.append(n)
+        return best
+    d0 = min_dist_to_start([tab["init"]["state"]], False)
+    if d0 is not None and d0 < K:
+        problems.append("a begin marker can be recognised after only %d character(s): `pos - %d` underflows" % (d0, K))
+    for (s, c), t in sorted(trans.items()):
+        if not t["end"]:
+            continue
+        if t["stop"]:
+            if t["start"]:
+                problems.append("transition (%s, %r) marks end and start at once: start = pos - 3 < end = pos" % (s, c))
+            continue
+        d = min_dist_to_start([t["next"]], True)
+        if d is not None and d < K:
+            problems.append("after the end mark set on (%s, %r) a begin marker can be recognised %d character(s) later: the slice gets start > end (needs at least %d, e.g. the text `/**/`)" % (s, c, d, K))
+    # S3: the K characters consumed last before a start-marking stop are single-byte
+    single = lambda c: c != "<non-ascii>"
+    pred = {}
+    for (s, c), t in trans.items():
+        if not t["stop"]:
+            pred.setdefault(t["next"], []).append((s, c))
+    frontier = set()
+    for (s1, c0), t in trans.items():
+        if t["stop"] and t["start"]:
+            if not single(c0):
+                problems.append("the begin marker is recognised on a multi-byte class (%s, %r)" % (s1, c0))
+            frontier.add(s1)
+    for back in range(1, K):
+        nxt = set()
+        for st in frontier:
+            for p, c in pred.get(st, []):
+                if not single(c):
+                    problems.append("state %s is entered on a multi-byte class from %s, %d character(s) before a begin marker: pos - %d may not be a character boundary" % (st, p, back, K))
+                nxt.add(p)
+        frontier = nxt
+    return sorted(set(problems))
